@@ -2238,6 +2238,13 @@ class ItemSpaceImpl(DynamicSpaceImpl):
         refs.observe(self._arguments)
         return refs
 
+    def on_delete(self):
+        for ref in self._arguments.values():
+            # Clear the values calculated by reading the arguments
+            # through attribute access to this space
+            self.model.clear_attr_referrers(ref)
+        super().on_delete()
+
     def _bind_args(self, args):
         self.boundargs = self.parent.formula.signature.bind(**args)
         self.argvalues = tuple(self.boundargs.arguments.values())
